@@ -2,7 +2,7 @@ import Secp.Proofs.DecodeRT
 import Secp.Proofs.DecodeTies
 import Secp.Proofs.ElementApiTiesConstr
 import Secp.Proofs.ElementCodecTies
-import Secp.Proofs.BytesTies
+import Secp.Proofs.BytesTiesP
 import Secp.Proofs.MiscTies
 /-!
 # C04 — element encodings are canonical SEC1 and round-trip through Decode
